@@ -15,7 +15,7 @@ def expecter_shape(b, with_lookback=True):
     se = searcher_shape(b)
     W = b.opt('W', lambda: b.int('W'))
     L = b.opt('lookback', lambda: b.int('lookback')) if with_lookback else b.none()
-    me = b.obj('self', 'pexpect.expect.Expecter', closed=True, spawn=sp, searcher=se,
+    me = b.obj('self', 'pexpect.expect.Expecter', sealed=True, spawn=sp, searcher=se,
                searchwindowsize=W, lookback=L)
     return me, sp, se, kind
 
@@ -184,7 +184,7 @@ class Eof(Contract):
 
     def shape(self, b):
         me, sp, se, kind = expecter_shape(b)
-        err = b.opt('err', lambda: b.obj('err', 'EOF', closed=False))
+        err = b.opt('err', lambda: b.obj('err', 'EOF', sealed=False))
         return dict(self=me, err=err)
 
     def requires(self, v):
@@ -228,7 +228,7 @@ class Timeout(Contract):
 
     def shape(self, b):
         me, sp, se, kind = expecter_shape(b)
-        err = b.opt('err', lambda: b.obj('err', 'TIMEOUT', closed=False))
+        err = b.opt('err', lambda: b.obj('err', 'TIMEOUT', sealed=False))
         return dict(self=me, err=err)
 
     def requires(self, v):
@@ -358,7 +358,7 @@ class ExpectLoop(Contract):
         se = searcher_shape(b)
         W = b.opt('W', lambda: b.int('W'))
         L = b.opt('lookback', lambda: b.int('lookback'))
-        me = b.obj('self', 'pexpect.expect.Expecter', closed=True, spawn=sp, searcher=se,
+        me = b.obj('self', 'pexpect.expect.Expecter', sealed=True, spawn=sp, searcher=se,
                    searchwindowsize=W, lookback=L)
         b.ghost('R', b'' if (kind == 'b' and hasattr(b, 'source')) else '')
         b.ghost('clk', b.real('clk0'))
@@ -558,7 +558,7 @@ class SearcherStringSearch(Contract):
 
     def shape(self, b):
         kind = b.choice('mode', ['b', 's'])
-        me = b.obj('self', SS, closed=True, eof_index=b.int('eof_index'), timeout_index=b.int('timeout_index'),
+        me = b.obj('self', SS, sealed=True, eof_index=b.int('eof_index'), timeout_index=b.int('timeout_index'),
                    _strings=b.symlist('_strings', [('idx', T.Int), ('s', TStr(kind))]),
                    longest_string=b.int('longest_string'), _kind=b.const(kind),
                    start=b.any('start0'), end=b.any('end0'), match=b.any('match0'))
@@ -695,7 +695,7 @@ class SearcherStringInit(Contract):
 
     def shape(self, b):
         kind = b.choice('mode', ['b', 's'])
-        me = b.obj('self', self.name.rsplit('.', 1)[0], closed=True, _kind=b.const(kind))
+        me = b.obj('self', self.name.rsplit('.', 1)[0], sealed=True, _kind=b.const(kind))
         b.ghost('pos', b.ctx.fresh(TArray(T.Int), 'pos0') if hasattr(b, 'ctx') else __import__('pyvc.spec', fromlist=['x']).ConcArray(0))
         et = TStr(kind) if self.with_longest else TRegex(kind)
         return {'self': me, self.param: b.symlist(self.param, [('p', TPat(et))], scalar=True)}
@@ -783,7 +783,7 @@ class SearcherReSearch(Contract):
 
     def shape(self, b):
         kind = b.choice('mode', ['b', 's'])
-        me = b.obj('self', SR, closed=True, eof_index=b.int('eof_index'), timeout_index=b.int('timeout_index'),
+        me = b.obj('self', SR, sealed=True, eof_index=b.int('eof_index'), timeout_index=b.int('timeout_index'),
                    _searches=b.symlist('_searches', [('idx', T.Int), ('s', TRegex(kind))]), _kind=b.const(kind),
                    start=b.any('start0'), end=b.any('end0'), match=b.any('match0'))
         b.ghost('bk', 0)
